@@ -137,7 +137,7 @@ def gen_corpus(ctx: common.Ctx, n: int) -> Iterator[dict[str, Any]]:
 
 def run(ctx: common.Ctx) -> None:
     quick = ctx.tier == "quick"
-    n_hist, steps, n_corpus, n_expl = (110, (6, 12), 150, 60) if quick else (450, (8, 24), 700, 300)
+    n_hist, steps, n_corpus, n_expl = (110, (6, 12), 150, 60) if quick else (200, (8, 20), 350, 150)
     scale = float(os.environ.get("VERIF_SCALE", "1"))
     n_hist, n_corpus, n_expl = max(1, int(n_hist * scale)), int(n_corpus * scale), max(1, int(n_expl * scale))
     ctx.rule = ("core: fixed histgen edit histories (3-7 modules, 18 definition kinds x 26 edit operators) and shuffled corpus fine-grained "
